@@ -266,17 +266,36 @@ def check(ctx):
     if b is None:
         ctx.lost('C17.8', 'Envelope::add_assertion_salted')
     else:
-        rt = strip_sites(detry(TermBuilder(F, b).return_term()))
-        u = m_call(rt, name='unwrap') or m_call(rt, name='expect')
-        rt2 = strip_sites(detry(u[0])) if u else rt
-        a = m_call(rt2, name='add_optional_assertion_envelope_salted', self_suffix='Envelope') or m_call(rt2, name='add_assertion_envelope_salted', self_suffix='Envelope')
-        good = False
-        if a is not None and strip_sites(a[0]) == P1 and strip_sites(a[2]) == ('param', 4):
-            x = strip_sites(a[1])
-            if x[0] == 'agg' and x[2] == 'Some':
-                x = strip_sites(x[3][0])
-            na = m_call(x, name='new_assertion')
-            good = na is not None and contains(na[0], lambda y: y == P2) and contains(na[1], lambda y: y == P3)
+        tb = TermBuilder(F, b)
+        P4 = ('param', 4)
+        def adder_ok(rt, flag):
+            rt = strip_sites(detry(rt))
+            u = m_call(rt, name='unwrap') or m_call(rt, name='expect')
+            rt2 = strip_sites(detry(u[0])) if u else rt
+            def the_assertion(x):
+                x = strip_sites(x)
+                if x[0] == 'agg' and x[2] == 'Some':
+                    x = strip_sites(x[3][0])
+                na = m_call(x, name='new_assertion')
+                return na is not None and contains(na[0], lambda y: y == P2) and contains(na[1], lambda y: y == P3)
+            a = m_call(rt2, name='add_optional_assertion_envelope_salted', self_suffix='Envelope') or m_call(rt2, name='add_assertion_envelope_salted', self_suffix='Envelope')
+            if a is not None:
+                fl = strip_sites(a[2])
+                return strip_sites(a[0]) == P1 and the_assertion(a[1]) and (fl == P4 or (flag is not None and fl == ('bool', flag)))
+            if flag is False:
+                # the unsalted half written out: the plain adder over the same assertion
+                a = m_call(rt2, name='add_assertion_envelope', self_suffix='Envelope') or m_call(rt2, name='add_optional_assertion_envelope', self_suffix='Envelope')
+                return a is not None and strip_sites(a[0]) == P1 and the_assertion(a[1])
+            return False
+        rt = strip_sites(detry(tb.return_term()))
+        good = adder_ok(rt, None)
+        if not good:
+            # the same thing written as a branch on the flag: judged per value of `salted`
+            good = True
+            for v in (True, False):
+                outs = [t for bi, si, t in ret_values_under(b, tb, {P4: v})]
+                if not outs or not all(adder_ok(t, v) for t in outs):
+                    good = False
         if good:
             ctx.ok('C17.8', ctx.site(b), 'add_assertion_salted = salted adder(self, new_assertion(predicate, object), salted)')
         else:
